@@ -654,6 +654,12 @@ class Namer:
         self.n = 0
 
     def dir(self, rel: str) -> int:
+        # in-flight markers are keyed by the whole table-relative path of the file they protect (metadata/inflight/data/x.inflight,
+        # metadata/inflight/metadata/manifests/y.inflight): every directory below metadata/inflight is the model's ONE marker
+        # directory.  Markers are bystanders of C16's statement (nothing the pointer reaches); that a marker's own directory entry
+        # is durable is not claimed here (C06 is about markers), and directory creation is outside the alphabet as before.
+        if rel.startswith("metadata/inflight/"):
+            return self.dirs["metadata/inflight"]
         if rel not in self.dirs:
             self.dirs[rel] = max(self.dirs.values()) + 1
         return self.dirs[rel]
